@@ -20,11 +20,15 @@ pub fn no_child(_: &[String]) -> i32 {
 
 pub mod okey;
 pub mod value;
+pub mod sort;
+pub mod agg;
 
 pub fn all() -> Vec<StreamDef> {
     vec![
         okey::def(),
         value::def(),
+        sort::def(),
+        agg::def(),
     ]
 }
 
